@@ -58,6 +58,33 @@ fn check_lookups_inner(ctx: &mut Ctx, out: &mut Outcome, what: &str, o: &Ontolog
             },
         }
     }
+    // the same lookups through the textual key (`hpo(String)`, `HpoTermId::try_from(&str)`): zero-padded to seven digits,
+    // and beyond the id space with eight to ten digits
+    let mut text_keys: Vec<u32> = names.keys().copied().collect();
+    for &id in names.keys() {
+        for m in [10u64, 100, 1000] {
+            // an absent id whose leading digits spell a present one
+            let v = u64::from(id) * m + u64::from(id % 7);
+            if v <= u64::from(u32::MAX) {
+                text_keys.push(v as u32);
+            }
+        }
+    }
+    text_keys.extend([0u32, 9_999_999, 10_000_000, 10_000_001, 99_999_999, 100_000_000, u32::MAX]);
+    ctx.counters.add("lookup.text_key_probes", text_keys.len() as u64);
+    for id in text_keys {
+        let key = format!("HP:{id:07}");
+        let by_text = crate::obs::guarded(|| hpo::HpoTermId::try_from(key.as_str()).ok().and_then(|k| o.hpo(k)).map(|t| t.id().as_u32()));
+        let by_string = crate::obs::guarded(|| o.hpo(key.clone()).map(|t| t.id().as_u32()));
+        let want = names.contains_key(&id).then_some(id);
+        for (how, got) in [("HpoTermId::try_from(&str)", by_text), ("hpo(String)", by_string)] {
+            match got {
+                Err(p) => out.violate(P, "lookup-panics", format!("{what}: lookup of {key:?} via {how} panicked: {p}")),
+                Ok(g) if g != want => out.violate(P, "text-key-lookup", format!("{what}: lookup of {key:?} via {how} returned {g:?}, expected {want:?}")),
+                _ => {}
+            }
+        }
+    }
     if full_sweep {
         ctx.counters.add("lookup.full_sweeps", 1);
         let mut present = 0usize;
